@@ -50,20 +50,20 @@ def make_store(env, per_label_config):
             return iter(list(self.frames))
 
         def read(self, label, *, config=None, container_type=None):
-            self.log.append([label, getattr(config, 'label_decoder', 'none-config')])
+            self.log.append([label, getattr(config, 'skip_header', 'none-config')])
             return self.frames[label]
 
         def read_many(self, labels, *, config=None, container_type=None):
             for label in labels:
                 c = config[label] if config is not None else None
-                self.log.append([label, getattr(c, 'label_decoder', 'none-config')])
+                self.log.append([label, getattr(c, 'skip_header', 'none-config')])
                 yield self.frames[label]
 
     frames = {l: sf.Frame.from_items((('v', env.array([10 * i, 10 * i + 1], 'int64')),), name=l) for i, l in enumerate(LABELS)}
     store = StoreModel(frames)
     if per_label_config:
-        # a per-label config whose marker (label_decoder) identifies it in the read log
-        cfg = StoreConfigMap({l: StoreConfig(label_decoder=('dec_' + l)) for l in LABELS})
+        # a per-label config whose marker (skip_header) identifies it in the read log
+        cfg = StoreConfigMap({l: StoreConfig(skip_header=10 + i) for i, l in enumerate(LABELS)})
     else:
         cfg = None
     return store, frames, cfg
@@ -93,6 +93,11 @@ def bus_state(env, bus):
 
 def mk_history(max_persist, kinds, per_label_config=False, tier='quick', timeout=300):
     def body(env, **kw):
+        from vf import rt
+        kw = {k: concretize(v, 0, 2) for k, v in kw.items()}   # positions: split by value, then everything is concrete
+        return rt.untraced(lambda: run(env, kw))
+
+    def run(env, kw):
         sf = env.sf
         store, frames, cfg = make_store(env, per_label_config)
         bus = sf.Bus._from_store(store, config=cfg, max_persist=max_persist)
@@ -101,26 +106,26 @@ def mk_history(max_persist, kinds, per_label_config=False, tier='quick', timeout
         for si, kind in enumerate(kinds):
             n_log = len(store.log)
             if kind == 'int':
-                k = concretize(kw[f'k{si}'], 0, 2)
+                k = kw[f'k{si}']
                 labels = [LABELS[k]]
                 r = bus.iloc[k]
                 trace.append([env.obs(r.name), env.obs(r.values.tolist())])
                 exp.append([labels[0], [[10 * k], [10 * k + 1]]])
             elif kind == 'loc':
-                k = concretize(kw[f'k{si}'], 0, 2)
+                k = kw[f'k{si}']
                 labels = [LABELS[k]]
                 r = bus.loc[LABELS[k]]
                 trace.append([env.obs(r.name), env.obs(r.values.tolist())])
                 exp.append([labels[0], [[10 * k], [10 * k + 1]]])
             elif kind == 'list':
-                k = concretize(kw[f'k{si}'], 0, 2)
-                j = concretize(kw[f'j{si}'], 0, 2)
+                k = kw[f'k{si}']
+                j = kw[f'j{si}']
                 labels = [LABELS[k], LABELS[j]]
                 r = bus.iloc[[k, j]]
                 trace.append(env.obs(r.index.values.tolist()))
                 exp.append(labels)
             elif kind == 'derive_drop':
-                k = concretize(kw[f'k{si}'], 0, 2)
+                k = kw[f'k{si}']
                 d = bus.drop.iloc[k]
                 keep = [l for i, l in enumerate(LABELS) if i != k]
                 # the derived Bus keeps serving the right Frames from the same store
@@ -145,7 +150,7 @@ def mk_history(max_persist, kinds, per_label_config=False, tier='quick', timeout
             if per_label_config:
                 # every read must have been given THAT label's config
                 trace.append([r_[1] for r_ in new_reads])
-                exp.append(['dec_' + r_[0] for r_ in new_reads])
+                exp.append([10 + LABELS.index(r_[0]) for r_ in new_reads])
             if max_persist is not None:
                 trace.append(sum(1 for x in bus._loaded.tolist() if x) <= max_persist)
                 exp.append(True)
